@@ -94,6 +94,26 @@ def main():
             shutil.rmtree(d, ignore_errors=True)
         out_dir = os.path.join(HERE, 'neutral', '%s-%s' % (prop, nid))
         os.makedirs(out_dir, exist_ok=True)
+        res['checks'] = {}
+        try:
+            old = json.load(open(os.path.join(out_dir, 'meta.json')))
+            res['checks'] = old.get('checks') or (
+                {old['tier']: old['check']} if 'check' in old else {})
+        except Exception:
+            pass
+        if 'check' in res:
+            res['checks'][tier] = dict(res['check'],
+                                       repo_head=res.get('repo_head'))
+        if not tests:
+            # keep the pinned-suite result of the earlier, complete run
+            try:
+                old = json.load(open(os.path.join(out_dir, 'meta.json')))
+                if 'tests_with_change' in old:
+                    res['tests_with_change'] = dict(
+                        old['tests_with_change'],
+                        at_repo_head=old.get('repo_head'))
+            except Exception:
+                pass
         shutil.copy(patch, os.path.join(out_dir, 'patch.diff'))
         json.dump(res, open(os.path.join(out_dir, 'meta.json'), 'w'),
                   indent=1, sort_keys=True)
